@@ -165,7 +165,9 @@ pub(crate) fn memo_macro(args: TokenStream, item: TokenStream) -> TokenStream {
             #(
                 #param_ids_blocks
             )*
-            let derived_node_id = ::pico::DerivedNodeId::new(#fn_hash.into(), param_ids);
+            const MEMO_FN_KEY: u64 =
+                ::pico::macro_fns::memo_fn_key(#fn_hash, module_path!(), line!(), column!());
+            let derived_node_id = ::pico::DerivedNodeId::new(MEMO_FN_KEY.into(), param_ids);
             let did_recalculate = ::pico::execute_memoized_function(
                 #db_arg,
                 derived_node_id,
